@@ -28,6 +28,8 @@ def completion_programs(n_sys, prios, later):
                         if not at % 2:
                             prog += [["exec", 1, "execute"]] * at
                     prog += tail
+                    if len(out) % 3 == 1:
+                        prog = [["logger", "quiet"]] + prog       # a model with a user logger that is not enabled for INFO
                     out.append(prog)
     return out
 
